@@ -271,9 +271,14 @@ class WrapFS(FS, typing.Generic[_F]):
         src_fs, _src_path = self.delegate_path(src_path)
         dst_fs, _dst_path = self.delegate_path(dst_path)
         with unwrap_errors({_src_path: src_path, _dst_path: dst_path}):
-            if not overwrite and dst_fs.exists(_dst_path):
-                raise errors.DestinationExists(_dst_path)
-            copy_file(src_fs, _src_path, dst_fs, _dst_path, preserve_time=preserve_time)
+            # check and copy under the locks of the wrapped filesystems: the
+            # wrapper's own lock excludes nobody who uses them directly
+            with src_fs.lock(), dst_fs.lock():
+                if not overwrite and dst_fs.exists(_dst_path):
+                    raise errors.DestinationExists(_dst_path)
+                copy_file(
+                    src_fs, _src_path, dst_fs, _dst_path, preserve_time=preserve_time
+                )
 
     def copydir(self, src_path, dst_path, create=False, preserve_time=False):
         # type: (Text, Text, bool, bool) -> None
@@ -281,11 +286,14 @@ class WrapFS(FS, typing.Generic[_F]):
         src_fs, _src_path = self.delegate_path(src_path)
         dst_fs, _dst_path = self.delegate_path(dst_path)
         with unwrap_errors({_src_path: src_path, _dst_path: dst_path}):
-            if not create and not dst_fs.exists(_dst_path):
-                raise errors.ResourceNotFound(dst_path)
-            if not src_fs.getinfo(_src_path).is_dir:
-                raise errors.DirectoryExpected(src_path)
-            copy_dir(src_fs, _src_path, dst_fs, _dst_path, preserve_time=preserve_time)
+            with src_fs.lock(), dst_fs.lock():
+                if not create and not dst_fs.exists(_dst_path):
+                    raise errors.ResourceNotFound(dst_path)
+                if not src_fs.getinfo(_src_path).is_dir:
+                    raise errors.DirectoryExpected(src_path)
+                copy_dir(
+                    src_fs, _src_path, dst_fs, _dst_path, preserve_time=preserve_time
+                )
 
     def create(self, path, wipe=False):
         # type: (Text, bool) -> bool
